@@ -115,9 +115,12 @@ func (w wireD) tok() Tok {
 	case 1, 2:
 		its := TList{}
 		for _, it := range w.items {
-			if it.pad {
+			switch {
+			case it.pad:
 				its = append(its, TList{TI(0)})
-			} else {
+			case it.reserved:
+				its = append(its, TList{TI(2), TI(int64(it.nibble))})
+			default:
 				its = append(its, TList{TI(1), TI(int64(it.id)), TBytes(it.val)})
 			}
 		}
@@ -193,6 +196,115 @@ func genWire(c *RNG, allowReserved bool) wireD {
 	return w
 }
 
+func wireFromTok(t Tok) wireD {
+	l := tokList(t)
+	w := wireD{version: int(tokInt(l[0])), marker: tokInt(l[1]) != 0, pt: int(tokInt(l[2])), seq: uint16(tokInt(l[3])),
+		ts: uint32(tokInt(l[4])), ssrc: uint32(tokInt(l[5])), payload: tokBytes(l[8]), padfill: tokBytes(l[9]), pad: tokInt(l[10]) != 0}
+	for _, c := range tokList(l[6]) {
+		w.csrc = append(w.csrc, uint32(tokInt(c)))
+	}
+	e := tokList(l[7])
+	w.kind = int(tokInt(e[0]))
+	switch w.kind {
+	case 1, 2:
+		for _, it := range tokList(e[1]) {
+			il := tokList(it)
+			switch tokInt(il[0]) {
+			case 0:
+				w.items = append(w.items, wItem{pad: true})
+			case 2:
+				w.items = append(w.items, wItem{reserved: true, nibble: int(tokInt(il[1]))})
+			default:
+				w.items = append(w.items, wItem{id: int(tokInt(il[1])), val: tokBytes(il[2])})
+			}
+		}
+	case 3:
+		w.profile, w.body = int(tokInt(e[1])), tokBytes(e[2])
+	}
+	return w
+}
+
+// op 305: wiredesc xwire - a wire image described by the RFC 3550/8285 grammar.  The runner encodes
+// the description with the Go encoder above (the model with Spec/Rfc3550.v), decodes it with the
+// implementation and compares every field with the description; then the re-encoding clause.
+// A failure on a wire with a reserved id 15 is the known finding only if the decode is exactly what
+// that finding produces (payload starting right behind the id byte, everything else right).
+func runWireDecode(w wireD, given []byte) Outcome {
+	wire := w.encode()
+	o := runUnmarshalSeq(true, [][]byte{wire})
+	o.Impl = L(B(wire), o.Impl)
+	o.Nontrivial = true
+	if !bytes.Equal(wire, given) {
+		o.Fail = "harness: the wire bytes of the case differ from the encoding of its description"
+		return o
+	}
+	if o.Fail != "" {
+		return o
+	}
+	var p rtp.Packet
+	if err := p.Unmarshal(append([]byte{}, wire...)); err != nil {
+		o.Fail = "well-formed wire image rejected: " + err.Error()
+		return o
+	}
+	var want []wItem
+	resOff := -1 // offset of the byte behind the reserved id, if any
+	off := 12 + 4*len(w.csrc) + 4
+	for _, it := range w.items {
+		if it.reserved {
+			resOff = off + 1
+			break
+		}
+		switch {
+		case it.pad:
+			off++
+		case w.kind == 1:
+			off += 1 + len(it.val)
+		default:
+			off += 2 + len(it.val)
+		}
+		if !it.pad {
+			want = append(want, it)
+		}
+	}
+	fieldsOK := func(payload []byte) string {
+		ids := p.GetExtensionIDs()
+		switch {
+		case p.Version != uint8(w.version) || p.Marker != w.marker || p.PayloadType != uint8(w.pt) || p.SequenceNumber != w.seq ||
+			p.Timestamp != w.ts || p.SSRC != w.ssrc || !u32Equal(p.CSRC, w.csrc) || p.Padding != w.pad || p.Extension != (w.kind != 0):
+			return "fixed fields decoded wrongly"
+		case !bytes.Equal(p.Payload, payload):
+			return "payload does not start right after the extension block"
+		case w.pad && int(p.PaddingSize) != len(w.padfill)+1:
+			return "padding size decoded wrongly"
+		case w.kind == 3 && (len(ids) != 1 || ids[0] != 0 || !bytes.Equal(p.GetExtension(0), w.body)):
+			return "legacy block decoded wrongly"
+		case w.kind == 1 || w.kind == 2:
+			if len(ids) != len(want) {
+				return fmt.Sprintf("%d elements decoded, %d encoded", len(ids), len(want))
+			}
+			for k, it := range want {
+				if int(ids[k]) != it.id || !bytes.Equal(p.GetExtension(ids[k]), it.val) {
+					return fmt.Sprintf("element %d decoded wrongly", k)
+				}
+			}
+		}
+		return ""
+	}
+	if why := fieldsOK(w.payload); why != "" {
+		o.Fail = why
+		if resOff >= 0 {
+			end := len(wire)
+			if w.pad {
+				end -= len(w.padfill) + 1
+			}
+			if resOff <= end && fieldsOK(wire[resOff:end]) == "" {
+				o.Known = "KF-C03-reserved15"
+			}
+		}
+	}
+	return o
+}
+
 func init() {
 	run := func(op int, toks []Tok) Outcome {
 		var o Outcome
@@ -205,29 +317,11 @@ func init() {
 			return runUnmarshalSeq(true, bufs)
 		case 301:
 			// the "implementation" of the RFC encoder is the Go generator; the model's is Spec/Rfc3550.v
-			l := tokList(toks[0])
-			w := wireD{version: int(tokInt(l[0])), marker: tokInt(l[1]) != 0, pt: int(tokInt(l[2])), seq: uint16(tokInt(l[3])),
-				ts: uint32(tokInt(l[4])), ssrc: uint32(tokInt(l[5])), payload: tokBytes(l[8]), padfill: tokBytes(l[9]), pad: tokInt(l[10]) != 0}
-			for _, c := range tokList(l[6]) {
-				w.csrc = append(w.csrc, uint32(tokInt(c)))
-			}
-			e := tokList(l[7])
-			w.kind = int(tokInt(e[0]))
-			switch w.kind {
-			case 1, 2:
-				for _, it := range tokList(e[1]) {
-					il := tokList(it)
-					if tokInt(il[0]) == 0 {
-						w.items = append(w.items, wItem{pad: true})
-					} else {
-						w.items = append(w.items, wItem{id: int(tokInt(il[1])), val: tokBytes(il[2])})
-					}
-				}
-			case 3:
-				w.profile, w.body = int(tokInt(e[1])), tokBytes(e[2])
-			}
+			w := wireFromTok(toks[0])
 			o.Impl, o.Nontrivial = B(w.encode()), true
 			return o
+		case 305:
+			return runWireDecode(wireFromTok(toks[0]), tokBytes(toks[1]))
 		case 302, 303:
 			buf := tokBytes(toks[0])
 			var ids []uint8
@@ -329,6 +423,13 @@ func init() {
 		Quick:    4000,
 		Thorough: 200000,
 		Gen: func(r *RNG, tier string, n int, emit func(op int, toks ...Tok)) {
+			{
+				// the known finding as a fixed witness (printed on every run, whatever the seed): a one-byte
+				// block with the reserved id 15 followed by more bytes of the block
+				kf := wireD{version: 2, pt: 96, seq: 7, ts: 9, ssrc: 5, kind: 1, payload: []byte{0xAA, 0xBB},
+					items: []wItem{{id: 1, val: []byte{1, 2}}, {reserved: true, nibble: 3}, {pad: true}, {pad: true}, {pad: true}, {pad: true}}}
+				emit(305, kf.tok(), TBytes(kf.encode()))
+			}
 			var hist [][]byte // the last well-formed wires: decoded in a row into one receiver (op 101 list)
 			for i := 0; i < n; i++ {
 				c := r.Fork(uint64(i))
@@ -337,63 +438,8 @@ func init() {
 				if !w.hasReserved() {
 					emit(301, w.tok())
 				}
-				// decode oracle on the abstract description
-				fail, known := "", ""
-				var p rtp.Packet
-				if err := p.Unmarshal(wire); err != nil {
-					fail = "well-formed wire image rejected: " + err.Error()
-				} else {
-					var want []wItem
-					for _, it := range w.items {
-						if it.reserved {
-							break
-						}
-						if !it.pad {
-							want = append(want, it)
-						}
-					}
-					ids := p.GetExtensionIDs()
-					switch {
-					case p.Version != uint8(w.version) || p.Marker != w.marker || p.PayloadType != uint8(w.pt) || p.SequenceNumber != w.seq ||
-						p.Timestamp != w.ts || p.SSRC != w.ssrc || !u32Equal(p.CSRC, w.csrc) || p.Padding != w.pad || p.Extension != (w.kind != 0):
-						fail = "fixed fields decoded wrongly"
-					case !bytes.Equal(p.Payload, w.payload):
-						fail = "payload does not start right after the extension block"
-					case w.pad && int(p.PaddingSize) != len(w.padfill)+1:
-						fail = "padding size decoded wrongly"
-					case w.kind == 3 && (len(ids) != 1 || ids[0] != 0 || !bytes.Equal(p.GetExtension(0), w.body)):
-						fail = "legacy block decoded wrongly"
-					case w.kind == 1 || w.kind == 2:
-						if len(ids) != len(want) {
-							fail = fmt.Sprintf("%d elements decoded, %d encoded", len(ids), len(want))
-						} else {
-							for k, it := range want {
-								if int(ids[k]) != it.id || !bytes.Equal(p.GetExtension(ids[k]), it.val) {
-									fail = fmt.Sprintf("element %d decoded wrongly", k)
-								}
-							}
-						}
-					}
-					if fail == "" { // re-encoding
-						b2, err := p.Marshal()
-						if err != nil {
-							fail = "re-marshal of a decoded well-formed packet failed: " + err.Error()
-						} else {
-							var q rtp.Packet
-							if e2 := q.Unmarshal(b2); e2 != nil || !hdrEquivalent(&p.Header, &q.Header) || !bytes.Equal(p.Payload, q.Payload) || p.PaddingSize != q.PaddingSize {
-								fail = "re-marshalled bytes do not decode to an equal packet"
-							}
-						}
-					}
-				}
-				line := CaseLine(101, TList{TBytes(wire)})
-				if fail != "" {
-					if w.hasReserved() {
-						known = "KF-C03-reserved15"
-					}
-					pendingFailures = append(pendingFailures, pendingFailure{line, fail, known})
-				}
-				emit(101, TList{TBytes(wire)})
+				// decode, compare with the description, re-encode: all in the runner of op 305
+				emit(305, w.tok(), TBytes(wire))
 				// the same wire as the last of a run of well-formed wires decoded into ONE receiver
 				// (CSRC counts, extension kinds and padding vary from wire to wire)
 				hist = append(hist, wire)
@@ -411,24 +457,6 @@ func init() {
 				if c.Intn(3) == 0 {
 					m := append([]byte{}, wire...)
 					m[c.Intn(len(m))] ^= 1 << uint(c.Intn(8))
-					var pm rtp.Packet
-					if pm.Unmarshal(m) == nil {
-						mfail := ""
-						b2, err := pm.Marshal()
-						if err != nil {
-							if !(pm.Padding && pm.PaddingSize == 0) {
-								mfail = "accepted input cannot be re-marshalled: " + err.Error()
-							}
-						} else {
-							var q rtp.Packet
-							if e2 := q.Unmarshal(b2); e2 != nil || !hdrEquivalent(&pm.Header, &q.Header) || !bytes.Equal(pm.Payload, q.Payload) || pm.PaddingSize != q.PaddingSize {
-								mfail = "accepted input: re-marshalled bytes do not decode to an equal packet"
-							}
-						}
-						if mfail != "" {
-							pendingFailures = append(pendingFailures, pendingFailure{CaseLine(101, TList{TBytes(m)}), mfail, ""})
-						}
-					}
 					emit(101, TList{TBytes(m)})
 				}
 				// standalone views on the exact block
